@@ -11,7 +11,7 @@ Section SimPrim.
     rune_at c (g_off g) = (sp_rn (pt s), sp_w (pt s)).
   Proof.
     intros S. pose proof (reach_ok _ _ (S_reach _ _ _ _ _ _ _ _ S)) as [A B].
-    unfold rune_at. rewrite <- (S_off _ _ _ _ _ _ _ _ S). unfold cur_off. rewrite <- A. symmetry. exact B.
+    unfold rune_at; cbn [rd rData rU rO rG rE]. cbn [rd rData]. rewrite <- (S_off _ _ _ _ _ _ _ _ S). unfold cur_off. rewrite <- A. symmetry. exact B.
   Qed.
 
   Lemma Sim_eof s sc g m H R inv : Sim c s sc g m H R inv ->
@@ -33,15 +33,15 @@ Section SimPrim.
     assert (Hoff : offset (sp_pos (adv (pt s))) = g_off g + sp_w (pt s)).
     { rewrite adv_off. unfold cur_off in S2. rewrite S2. reflexivity. }
     assert (Hrune : rune_at c (g_off g + sp_w (pt s)) = (sp_rn (adv (pt s)), sp_w (adv (pt s)))).
-    { unfold rune_at. rewrite <- Hoff, <- A. symmetry. exact B. }
+    { unfold rune_at; cbn [rd rData rU rO rG rE]. rewrite <- Hoff, <- A. symmetry. exact B. }
     assert (Hpos : sp_pos (adv (pt s)) = pos_of d (g_off g + sp_w (pt s))).
     { rewrite <- Hoff. apply reach_pos_of. exact Hr. }
-    unfold land. rewrite Hrune. unfold read.
+    unfold land; cbn [rd rData rU rO rG rE]. rewrite Hrune. unfold read.
     destruct (Z.eqb (sp_rn (adv (pt s))) RuneError && Nat.eqb (sp_w (adv (pt s))) 1) eqn:Hinv; cbn [andb].
     - destruct (o_allowinvalid (cO c)); cbn [negb].
       + constructor; cbn; auto.
       + constructor; cbn; auto.
-        rewrite S5. f_equal. unfold addErr, addErrAt, ref_perr. cbn. rewrite err_prefix_ref. cbn.
+        rewrite S5. f_equal. unfold addErr, addErrAt, ref_perr; cbn [rd rData rU rO rG rE]. cbn. rewrite err_prefix_ref. cbn.
         rewrite S11, Hpos. reflexivity.
     - constructor; cbn; auto.
   Qed.
@@ -67,7 +67,7 @@ Section SimPrim.
   Lemma sliceFrom_slice start s o :
     sp_ok d start -> offset (sp_pos start) = o ->
     sliceFrom start s = slice c o (cur_off s).
-  Proof. intros [A _] E. unfold sliceFrom, slice. rewrite A, E. reflexivity. Qed.
+  Proof. intros [A _] E. unfold sliceFrom, slice; cbn [rd rData rU rO rG rE]. rewrite A, E. reflexivity. Qed.
 
   (* going back to an earlier save point: Ref simply keeps using the earlier position *)
   Lemma Sim_restore p s sc g m H R inv g0 :
@@ -127,7 +127,7 @@ Section SimTerm.
     sim_res c sc g H R inv (parseAnyMatcher c s)
             (term_result c R inv b_dot sc g m (step_rune c R (g_off g) m (fun _ => true)) m).
   Proof.
-    intros S. unfold parseAnyMatcher, step_rune. rewrite (Sim_eof _ _ _ _ _ _ _ _ S), (Sim_rune _ _ _ _ _ _ _ _ S).
+    intros S. unfold parseAnyMatcher, step_rune; cbn [rd rData rU rO rG rE]. rewrite (Sim_eof _ _ _ _ _ _ _ _ S), (Sim_rune _ _ _ _ _ _ _ _ S).
     destruct (Nat.eqb_spec (sp_w (pt s)) 0) as [E|E].
     - apply sim_term_fail. exact S.
     - apply sim_term_match; [exact S | lia].
@@ -139,7 +139,7 @@ Section SimTerm.
             (term_result c R inv cv sc g m
                (step_rune c R (g_off g) m (class_decide (cU c) chars ranges classes ic cinv)) m).
   Proof.
-    intros Ht S. unfold parseCharClassMatcher, step_rune, cls_fail, cls_match.
+    intros Ht S. unfold parseCharClassMatcher, step_rune, cls_fail, cls_match; cbn [rd rData rU rO rG rE].
     rewrite (Sim_eof _ _ _ _ _ _ _ _ S), (Sim_rune _ _ _ _ _ _ _ _ S).
     pose proof (reach_ok _ _ (S_reach _ _ _ _ _ _ _ _ S)) as [A B].
     assert (Hnn : (0 <= sp_rn (pt s))%Z).
@@ -179,7 +179,7 @@ Section SimLit.
       + f_equal. erewrite sliceFrom_slice; [| subst start; apply (reach_ok _ _ (S_reach _ _ _ _ _ _ _ _ S0)) | subst start; apply S0].
         f_equal. rewrite failAt_off. apply (S_off _ _ _ _ _ _ _ _ S).
       + subst start. rewrite (Sim_pos _ _ _ _ _ _ _ _ S0). apply Sim_failAt. exact S.
-    - cbv zeta. unfold step_rune. pose proof (Sim_rune _ _ _ _ _ _ _ _ S) as Hrn. cbn [g_off] in Hrn. rewrite Hrn. cbv beta.
+    - cbv zeta. unfold step_rune; cbn [rd rData rU rO rG rE]. pose proof (Sim_rune _ _ _ _ _ _ _ _ S) as Hrn. cbn [g_off] in Hrn. rewrite Hrn. cbv beta.
       rewrite (Sim_eof _ _ _ _ _ _ _ _ S).
       assert (Hfail : sim_res c sc g0 H R inv
                 (Ok (VNil, false) (restore start (failAt false (sp_pos start) want s)))
@@ -620,7 +620,7 @@ Section SimComp.
     set (s3 := set_cur_text (sliceFrom (pt s) s2) (set_cur_pos (sp_pos (pt s)) s2)).
     assert (Hctx : forall x, block_ctx c id (set_pool x s3)
                    = block_ctx_ref c id (slice c (g_off g) (g_off g')) (pos_of (cData c) (g_off g)) sc' g' m').
-    { intros x. unfold block_ctx, block_ctx_ref, s3. cbn.
+    { intros x. unfold block_ctx, block_ctx_ref, s3; cbn [rd rData rU rO rG rE]. cbn.
       change (top_scope (set_pool x (set_cur_text (sliceFrom (pt s) s2) (set_cur_pos (sp_pos (pt s)) s2))))
         with (top_scope s2). rewrite (top_scope_Sim _ _ _ _ _ _ _ S2).
       rewrite T3, T4, (Sim_pos _ _ _ _ _ _ _ _ S). fold d.
@@ -657,7 +657,7 @@ Section SimComp.
     (c_args xi = c_args xr /\ c_state xi = c_state xr /\ c_gstore xi = c_gstore xr) /\
     (q_stale_ctx (cQ c) = false -> xi = xr).
   Proof.
-    intros S. cbv zeta. unfold block_ctx, block_ctx_ref, fresh_state.
+    intros S. cbv zeta. unfold block_ctx, block_ctx_ref, fresh_state; cbn [rd rData rU rO rG rE].
     pose proof (top_scope_Sim _ _ _ _ _ _ _ S) as Et.
     destruct S as [S1 S2 S3 S4 S5 S6 S7 S8 S9 S10 S11 S12].
     destruct (q_stale_ctx (cQ c)); cbn.
@@ -723,7 +723,7 @@ Section SimComp.
     set (xr := block_ctx_ref c id [] (pos_of d (g_off g)) sc g m).
     assert (Hrel : (c_args xi = c_args xr /\ c_state xi = c_state xr /\ c_gstore xi = c_gstore xr) /\
                    (q_stale_ctx (cQ c) = false -> xi = xr)).
-    { unfold xi, xr, block_ctx, block_ctx_ref. rewrite Et, S3, S4. cbn. split; [auto|].
+    { unfold xi, xr, block_ctx, block_ctx_ref; cbn [rd rData rU rO rG rE]. rewrite Et, S3, S4. cbn. split; [auto|].
       intros Hq. f_equal; unfold fresh_state in *; rewrite Hq in *; cbn; auto. }
     destruct Hrel as [(Ha & Hs' & Hg) Heq].
     assert (Hres : ce_state (cE c) id xi = ce_state (cE c) id xr).
@@ -742,7 +742,7 @@ Section SimComp.
     intros S. pose proof (Sim_pos _ _ _ _ _ _ _ _ S) as Hpos.
     destruct S as [S1 S2 S3 S4 S5 S6 S7 S8 S9 S10 S11 S12].
     unfold addErr, addErrAt. constructor; cbn; auto.
-    rewrite S5. f_equal. unfold ref_perr. rewrite err_prefix_ref, S11, Hpos. reflexivity.
+    rewrite S5. f_equal. unfold ref_perr; cbn [rd rData rU rO rG rE]. rewrite err_prefix_ref, S11, Hpos. reflexivity.
   Qed.
 
   (* ---------- rule reference ---------- *)
@@ -766,7 +766,7 @@ Section SimComp.
     H_wf c H -> I c s -> Sim c s sc g m H R inv ->
     sim_res c sc g H R inv (parseRuleRefExpr c wrap n nm s) (reval_body c ev 0 H R inv (ERef n0 nm) sc g m).
   Proof.
-    intros HH HI S. unfold parseRuleRefExpr. cbn [reval_body].
+    intros HH HI S. unfold parseRuleRefExpr. cbn [reval_body]. cbn [rd rData rU rO rG rE].
     destruct nm as [|x nm].
     - cbn. split; [reflexivity|]. eapply Sim_to_P. exact S.
     - destruct (find_rule (x :: nm) (cG c)) as [r|] eqn:Hf.
